@@ -223,3 +223,12 @@ pub use process_span::*;
 pub use report::*;
 pub use session::*;
 pub use thread_span::*;
+
+// Verification hook (H7): harness code lives outside the repository and is only compiled by the
+// model checker (`cfg(kani)`) or by native counterexample replays (`--cfg folo_verif`).
+#[cfg(any(kani, folo_verif))]
+#[doc(hidden)]
+#[allow(warnings, clippy::all, clippy::pedantic, clippy::nursery, clippy::restriction)]
+pub mod folo_verif {
+    include!(concat!(env!("FOLO_VERIF_DIR"), "/kani/alloc_tracker/harness.rs"));
+}
